@@ -6,7 +6,7 @@ from vlib import core, e1, oracles, spaces, charclass
 
 def _spaces(tier):
     from sqlparse import keywords
-    one, two, info = charclass.representatives([rx for rx, _ in keywords.SQL_REGEX])
+    one, two, info = charclass.representatives(oracles.rule_sources())
     # second representative for every class that has more than one member (word classes, '!~', ',;')
     cls2 = list(one) + [r[1] for r in two if len(r) > 1]
     if tier == 'quick':
@@ -151,7 +151,7 @@ def lazy_streams(tier):
     viols = []
 
     def work(chunk):
-        return [(combo, gensched.explore([facts[i][1] for i in combo], [tok] * len(combo), [refs[i] for i in combo]))
+        return [(combo, gensched.explore_checked([facts[i][1] for i in combo], [tok] * len(combo), [refs[i] for i in combo]))
                 for combo in chunk]
     for combo, st in [x for ch in core.pmap(work, core.chunked(combos, core.NPROC * 2)) for x in ch]:
         info['schedules'] += st['schedules']
@@ -171,7 +171,7 @@ def run(tier, seed):
     if ref.table_problem:
         model_errors.append(ref.table_problem)
     viols = []
-    for (rx, _), w in zip(__import__('sqlparse').keywords.SQL_REGEX, ref.min_width):
+    for (rx, _), w in zip([(r.pattern, None) for r, _ in ref.rules], ref.min_width):
         if w < 1:
             viols.append({'kind': 'zero-width-rule', 'sig': rx[:60], 'detail': 'getwidth()[0] == 0',
                           'text': rx, 'size': 0})
